@@ -23,6 +23,7 @@ func TestMain(m *testing.M) {
 	vh.Assume("crypto randomness is not reproducible by seed: the case stores key and nonce, the oracles do not depend on particular random bytes; capability masks are compared semantically (the library writes the mask types in map order)")
 	vh.Rule("also: 20..1030 logins (10010 in the thorough tier) in one process, each on its own connection: no session key and no ciphertext is ever sent twice")
 	vh.Rule("also: Info.TLSEnable set (a quarter of the cases); nonces of capacity-31..capacity bytes (room for short secrets, not for the 32-byte session key): the login has to fail and nothing sent may decrypt to anything but nonce||secret")
+	vh.Rule("also: histories over one connection with ONE LoginConfig object reused (members reassigned), earlier logins in the plain flow; the password slot of every encrypted login's record is empty")
 	vh.Main(m, "C09")
 }
 
